@@ -162,12 +162,30 @@ func lockIntr(acquire, read bool) intrinsicFn {
 		famName := mu.Prefix + "#held"
 		fam := st.heap.Get(famName, len(mu.Idx), SBool)
 		held := fam.Select(mu.Idx)
+		// one critical section (C16): a mutex named in the function's `guarded` clause is not taken again once the
+		// function has released it — otherwise what it checked under the lock may no longer hold when it acts
+		// (the serialisability argument needs every guarded operation to be ONE critical section)
+		guardedHere := false
+		for _, g := range x.guards {
+			if g.fam == famName {
+				guardedHere = true
+			}
+		}
+		relName := mu.Prefix + "#released"
 		if acquire {
 			x.safety(st, site, "lock", Not(held)) // re-acquiring a held lock deadlocks
+			if guardedHere {
+				rel := st.heap.Get(relName, len(mu.Idx), SBool).Select(mu.Idx)
+				x.safety(st, site, "onesection", Not(rel))
+			}
 			st.heap.Set(famName, fam.Store(mu.Idx, True()))
 		} else {
 			x.safety(st, site, "lock", held)
 			st.heap.Set(famName, fam.Store(mu.Idx, False()))
+			if guardedHere {
+				rf := st.heap.Get(relName, len(mu.Idx), SBool)
+				st.heap.Set(relName, rf.Store(mu.Idx, True()))
+			}
 		}
 		return Val{K: VTuple}
 	}
